@@ -169,7 +169,13 @@ pub fn instances(env: &Env, ci: usize, n: usize) -> Vec<(String, Circuit)> {
             }
         }
         _ => {
-            for k in 0..n {
+            // coinciding operands first (a == b as elements: identical, and the other representative)
+            for k in 0..3usize.min(n) {
+                let a = els[(k * 2 + 1) % els.len()].1;
+                let b = if k % 2 == 0 { a } else { -(-a) + Element::IDENTITY };
+                v.push((format!("{} , same element", els[(k * 2 + 1) % els.len()].0), Circuit::AddAssignAdd { a, b, c: a + b, d: a - b }));
+            }
+            for k in 0..n.saturating_sub(3) {
                 let (a, b) = (els[k % els.len()].1, els[(k * 7 + 3) % els.len()].1);
                 v.push((format!("{} , {}", els[k % els.len()].0, els[(k * 7 + 3) % els.len()].0), Circuit::AddAssignAdd { a, b, c: a + b, d: a - b }));
             }
@@ -205,6 +211,25 @@ pub fn shapes() -> Vec<Shape> {
         let b = ElementVar::new_witness(cs.clone(), || Ok(e.els[(i * 5 + 1) % e.els.len()].1))?;
         let _ = a.clone() + b.clone();
         let _ = a - b;
+        Ok(())
+    });
+    sh!("a += b, a -= b, a + &b, a - &b (b equal to a for every other input)", |e| e.els.len() * 2, |e, i, cs| {
+        let n = e.els.len();
+        let a = ElementVar::new_witness(cs.clone(), || Ok(e.els[i % n].1))?;
+        // second half of the inputs: b is the SAME element as a (value-dependent shortcuts such as
+        // "use doubling when the operands coincide" would show as a different shape)
+        let bval = if i >= n { e.els[i % n].1 } else { e.els[(i * 5 + 1) % n].1 };
+        let b = ElementVar::new_witness(cs.clone(), || Ok(bval))?;
+        let mut x = a.clone();
+        x += b.clone();
+        let mut y = a.clone();
+        y -= b.clone();
+        let mut z = a.clone();
+        z += &b;
+        let mut w = a.clone();
+        w -= &b;
+        let _ = a.clone() + &b;
+        let _ = a.clone() - &b;
         Ok(())
     });
     sh!("negate, double_in_place", |e| e.els.len(), |e, i, cs| {
